@@ -16,11 +16,16 @@ def q(s): return '"' + s.replace('"', '""') + '"'
 CANON = ['{\n  a = 1;\n}\n', '{ a = 1; }\n', '{ pkgs }:\n{\n  a = 1;\n  b = {\n    c = "x";\n  };\n}\n', 'let\n  v = 1;\nin\n{\n  a = v;\n}\n',
          '# header\n{\n  a = [\n    1\n    2\n  ];\n  # note\n  b.c = true;\n}\n', '{ }\n', '{\n  a = 1;\n}', '{ a = 1; }', '{\n  a = 1;\n}\n\n',
          '{ a.b.c = 1; }\n', '{\n  a.b.c.d = 1;\n}\n', 'let\n  x.y.z = 1;\nin\n{ a = 1; }\n', '{\n  a.b.c = 1;\n  a.b.d = 2;\n}\n',
+         '{\n  a = {\n    n = {\n      b.c = 1;\n      k = 3;\n    };\n    m = 1;\n  };\n}\n',       # [13] twelfth round: an attrpath family two explicit sets down
          'let\n  a = 1;\nin\nlet\n  b = 2;\n  d = 3;\nin\n\n{ c = a + b; }\n', '{ pkgs }:\nlet\n  a = 1;\nin\nlet\n  b = 2;\n  d = 3;\nin\n# body\n{ c = a + b; }\n# end\n']        # tenth round: removing the only leaf of a long attrpath
 NONCANON = ['\ufeff{ a = 1; }\n', '\ufeff{\n  a = 1;\n}\n', '{ a = 1; }\r\n', '{\r\n  a = 1;\r\n}\r\n', '{ a = "é→"; }\n', '{a=1;}', '{ a   =  1 ; }\n', '{\n\ta = 1;\n}\n', '\n{ a = 1; }\n', '{ a = 1; }   ', '{\n  a = 1;\n\n\n  b = 2;\n}\n', '[ 1 2 ]\n', 'x: x\n', '1\n']
 BROKEN = ['{ a = 1 }', '{\n  a = 1;\n  b = 2\n}\n', '{ a = [ 1 2; }', 'a.${b', '{ a, , b }: { a = 1; }\n', '{ a = 1;', '{ a = ; }\n', '{ a = 1; }}\n', 'let in', '{ a = 1 }\n', ')(', '{ a = "x; }\n', '\n\n{ a = 1; \n', '  { a = [ 1; }  \n', '']
-PATHS = ['@@a', '@b', '@d', 'a.b.c', 'a.b.c.d', '@x.y.z', 'a.b.d', '"a${"', '"${"', 'b."x${"', '"$"', '"a$"', '"\\${"', 'a', 'b', 'b.c', 'z', 'a.b', '"a"', 'a..b', '', '@v', '@w', '@@v', '"q', 'x.y.z', 'é', '"é"', 'b\n', 'a\n', 'a.b\n', '@b\n', ' b', 'b ', 'b\t', 'b\r']
+PATHS = ['a.n.b.c', 'a.n.b.d', 'a.n.b', 'a.n.k', 'a.n.fresh', '@@a', '@b', '@d', 'a.b.c', 'a.b.c.d', '@x.y.z', 'a.b.d', '"a${"', '"${"', 'b."x${"', '"$"', '"a$"', '"\\${"', 'a', 'b', 'b.c', 'z', 'a.b', '"a"', 'a..b', '', '@v', '@w', '@@v', '"q', 'x.y.z', 'é', '"é"', 'b\n', 'a\n', 'a.b\n', '@b\n', ' b', 'b ', 'b\t', 'b\r']
 VALUES = ['2', '"s"', '[ 1 2 ]', '{ k = 1; }', '1 +', '', '1 2', 'x: x', '# c', '"é"']
+# twelfth round: VALUES whose only damage is a character at either end that Python calls white space and Nix does not (the library refuses them; an
+# argument parser that strips them turns a refused value into an accepted one), next to values padded with real blanks
+EDGE_VALUES = ['3\u00a0', '\u00a03', '[ 1 2 ]\u2028', '\u30003', '\x1f{ c = 4; }\x1c', '3\x0c', '3\u0085', '\ufeff3', ' 3 ', '\t3\n', '3\u00a0\n', '\x0b3']
+VALUES += EDGE_VALUES
 def text():
     r = R.random()
     if r < 0.45: return R.choice(CANON), 'canonical'
@@ -31,8 +36,10 @@ cases = []
 for t in CANON: cases += [{'cmd': cm, 'text': t, 'kind': 'canonical', 'npath': 'a', 'value': '2'} for cm in ('test', 'set', 'rm')]
 for t in NONCANON: cases += [{'cmd': cm, 'text': t, 'kind': 'noncanonical', 'npath': 'a', 'value': '2'} for cm in ('test', 'set')]
 # … and every path spelling under test as a set and an rm on two canonical documents (ninth round: a spelling met only by chance is a spelling missed)
-for t in (CANON[0], CANON[2], CANON[9], CANON[10], CANON[11], CANON[12], CANON[13], CANON[14]):
+for t in (CANON[0], CANON[2], CANON[9], CANON[10], CANON[11], CANON[12], CANON[13], CANON[14], CANON[15]):
     for pth in PATHS: cases += [{'cmd': 'set', 'text': t, 'kind': 'canonical', 'npath': pth, 'value': '2'}, {'cmd': 'rm', 'text': t, 'kind': 'canonical', 'npath': pth, 'value': '2'}]
+for t in (CANON[0], CANON[3]):
+    for v in EDGE_VALUES: cases.append({'cmd': 'set', 'text': t, 'kind': 'canonical', 'npath': 'a', 'value': v})
 for _ in range(N):
     t, kind = text()
     cmd = R.choice(['test', 'test', 'set', 'set', 'set', 'rm', 'rm', 'bogus'])
@@ -99,6 +106,10 @@ for c, (o1, o2) in zip(cases, obs):
                 if not ok_again: what = 'the text emitted by a successful %s on a canonical input is rejected by `nima test`' % c['cmd']
                 elif c['text'].endswith('\n') and not c['text'].endswith('\n\n') and not (outs.endswith('\n') and not outs.endswith('\n\n')):
                     what = 'a canonical input ending in exactly one newline comes back from a successful %s ending in %r' % (c['cmd'], outs[-3:])       # eleventh round: the clause was only checked through `nima test`, which accepts a trailing blank line
+                elif c['cmd'] == 'rm' and outs == (c['text'] if c['text'].endswith('\n') else c['text'] + '\n'):
+                    what = 'exit status 0 for an rm that removed nothing: the emitted text is the input'          # twelfth round: "exit 0 only on success" judged from outside the library
+                elif c['cmd'] == 'set' and outs == (c['text'] if c['text'].endswith('\n') else c['text'] + '\n') and c['value'].strip() not in c['text']:
+                    what = 'exit status 0 for a set that wrote nothing: the emitted text is the input and does not contain the value'
     if what: viol.append({'what': what, 'cmd': c['cmd'], 'text': c['text'], 'npath': c['npath'], 'value': c['value']})
     if exc is None and c['text'].isascii() and outs.isascii() and c['npath'].isascii() and c['value'].isascii() and '\r' not in outs:
         lr = lib['set'] if lib['set'] is None or lib['set'].isascii() else None
